@@ -5,6 +5,7 @@ mod import_suite;
 mod lazy_suite;
 mod eager_suite;
 mod fault_suite;
+mod cached_suite;
 
 use util::*;
 
@@ -31,6 +32,7 @@ fn main() {
         }
         "fault" => { println!("{}", fault_suite::run().to_json()); }
         "eager" => { println!("{}", eager_suite::run(arg(&args, "--depth", 3usize), threads).to_json()); }
+        "cached" => { println!("{}", cached_suite::run(arg(&args, "--depth", 4usize)).to_json()); }
         "lazy" => { println!("{}", lazy_suite::run(arg(&args, "--maxn", 4usize)).to_json()); }
         "import" => { println!("{}", import_suite::run().to_json()); }
         "vecreads" => {
@@ -62,6 +64,11 @@ fn main() {
             let r = match suite {
                 "rawdb" => rawdb_suite::replay(std::path::Path::new("."), &hist),
                 s if s.starts_with("vec:") => vec_suite::replay(&s[4..], &hist),
+                "cached" => {
+                    let ops: Option<Vec<cached_suite::Op>> = hist.iter().map(|h| cached_suite::parse(h)).collect();
+                    match ops { None => { eprintln!("bad history"); std::process::exit(2); }
+                        Some(o) => cached_suite::run_history(&o).map(|_| ()).map_err(|(c, d)| Failure { clause: c, detail: d, history: hist.clone() }) }
+                }
                 _ => { eprintln!("unknown suite"); std::process::exit(2); }
             };
             match r {
